@@ -384,7 +384,7 @@ class SparseEncoding(Encoding):
         return self._shaped_indices(i)
 
     def get_value(self, index):
-        return self._gather_nd(np.expand_dims(index, axis=0))[0]
+        return self.gather_nd(np.expand_dims(index, axis=0))[0]
 
     @caching.cache_decorator
     def stripped(self):
